@@ -1,4 +1,1030 @@
-From Coq Require Import List NArith Bool Arith Lia.
+(* C11 — proofs about the model of DirHasher / FileIndex (Model.v).
+   Sections: bytes order and little-endian packing; induction over trees;
+   the uncached walk is [dig]; sorting; injectivity up to collisions;
+   normalisation preserves the side conditions; order of index look-ups;
+   transparency of the cache; byte level of cache.bin; histories. *)
+From Coq Require Import List NArith Bool Arith Lia Permutation Sorted.
 Require Import BobV.Gen.ConstsC11 BobV.C11.Model.
 Import ListNotations.
 Open Scope N_scope.
+
+(* ================================================================== bytes *)
+
+Lemma bytes_eqb_refl : forall a, bytes_eqb a a = true.
+Proof. induction a; simpl; auto. rewrite N.eqb_refl. auto. Qed.
+
+Lemma bytes_eqb_eq : forall a b, bytes_eqb a b = true <-> a = b.
+Proof.
+  induction a; destruct b; simpl; split; intros; try congruence; auto.
+  - apply andb_true_iff in H as [H1 H2]. apply N.eqb_eq in H1. apply IHa in H2. congruence.
+  - inversion H; subst. rewrite N.eqb_refl. simpl. apply IHa. reflexivity.
+Qed.
+
+Lemma bytes_mem_In : forall x l, bytes_mem x l = true <-> In x l.
+Proof.
+  induction l; simpl; split; intros; try congruence; try tauto.
+  - apply orb_true_iff in H as [H|H].
+    + apply bytes_eqb_eq in H. auto.
+    + right. apply IHl. auto.
+  - apply orb_true_iff. destruct H.
+    + left. subst. apply bytes_eqb_refl.
+    + right. apply IHl. auto.
+Qed.
+
+Lemma bytes_ltb_irrefl : forall a, bytes_ltb a a = false.
+Proof. induction a; simpl; auto. rewrite N.ltb_irrefl. auto. Qed.
+
+Lemma bytes_ltb_trans : forall a b c, bytes_ltb a b = true -> bytes_ltb b c = true -> bytes_ltb a c = true.
+Proof.
+  induction a; destruct b, c; simpl; intros; try congruence; auto.
+  destruct (a <? n) eqn:E1.
+  - destruct (n <? n0) eqn:E2.
+    + apply N.ltb_lt in E1, E2. assert (a <? n0 = true) by (apply N.ltb_lt; lia). rewrite H1. auto.
+    + destruct (n0 <? n) eqn:E3; try congruence.
+      apply N.ltb_lt in E1. apply N.ltb_ge in E2, E3. assert (n = n0) by lia. subst.
+      assert (a <? n0 = true) by (apply N.ltb_lt; lia). rewrite H1. auto.
+  - destruct (n <? a) eqn:E2; try congruence.
+    apply N.ltb_ge in E1, E2. assert (a = n) by lia. subst.
+    destruct (n <? n0) eqn:E3; auto.
+    destruct (n0 <? n) eqn:E4; try congruence.
+    eapply IHa; eauto.
+Qed.
+
+Lemma bytes_ltb_total : forall a b, bytes_ltb a b = true \/ a = b \/ bytes_ltb b a = true.
+Proof.
+  induction a; destruct b; simpl; auto.
+  destruct (a <? n) eqn:E1; auto.
+  destruct (n <? a) eqn:E2; auto.
+  apply N.ltb_ge in E1, E2. assert (a = n) by lia. subst.
+  destruct (IHa b) as [H|[H|H]]; auto. subst; auto.
+Qed.
+
+Lemma bytes_ltb_asym : forall a b, bytes_ltb a b = true -> bytes_ltb b a = false.
+Proof.
+  intros. destruct (bytes_ltb b a) eqn:E; auto.
+  pose proof (bytes_ltb_trans _ _ _ H E). rewrite bytes_ltb_irrefl in H0. congruence.
+Qed.
+
+Lemma bytes_leb_total : forall a b, bytes_leb a b = true \/ bytes_leb b a = true.
+Proof.
+  unfold bytes_leb. intros. destruct (bytes_ltb_total a b) as [H|[H|H]].
+  - left. rewrite (bytes_ltb_asym _ _ H). auto.
+  - subst. rewrite bytes_ltb_irrefl. auto.
+  - right. rewrite (bytes_ltb_asym _ _ H). auto.
+Qed.
+
+Lemma bytes_leb_trans : forall a b c, bytes_leb a b = true -> bytes_leb b c = true -> bytes_leb a c = true.
+Proof.
+  unfold bytes_leb. intros a b c H1 H2. apply negb_true_iff in H1, H2. apply negb_true_iff.
+  destruct (bytes_ltb c a) eqn:E; auto.
+  destruct (bytes_ltb_total b c) as [H|[H|H]]; try congruence.
+  pose proof (bytes_ltb_trans _ _ _ H E). congruence.
+Qed.
+
+Lemma bytes_leb_neq_ltb : forall a b, bytes_leb a b = true -> a <> b -> bytes_ltb a b = true.
+Proof.
+  unfold bytes_leb. intros a b H Hn. apply negb_true_iff in H.
+  destruct (bytes_ltb_total a b) as [H1|[H1|H1]]; congruence.
+Qed.
+
+Lemma bytes_ltb_leb : forall a b, bytes_ltb a b = true -> bytes_leb a b = true.
+Proof. unfold bytes_leb. intros. rewrite (bytes_ltb_asym _ _ H). auto. Qed.
+
+Lemma bytes_ltb_app_l : forall p a b, bytes_ltb (p ++ a) (p ++ b) = bytes_ltb a b.
+Proof. induction p; simpl; auto. intros. rewrite N.ltb_irrefl. auto. Qed.
+
+(* a < b: either they differ at a first position, or a is a proper prefix of b *)
+Lemma bytes_ltb_cases : forall a b, bytes_ltb a b = true ->
+  (exists c x y ta tb, a = c ++ x :: ta /\ b = c ++ y :: tb /\ x < y) \/
+  (exists y tb, b = a ++ y :: tb).
+Proof.
+  induction a; destruct b; simpl; intros; try congruence.
+  - right. exists n, b. reflexivity.
+  - destruct (a <? n) eqn:E1.
+    + left. exists [], a, n, a0, b. apply N.ltb_lt in E1. auto.
+    + destruct (n <? a) eqn:E2; try congruence.
+      apply N.ltb_ge in E1, E2. assert (a = n) by lia. subst.
+      destruct (IHa _ H) as [(c & x & y & ta & tb & Ha & Hb & Hxy)|(y & tb & Hb)].
+      * left. exists (n :: c), x, y, ta, tb. subst. auto.
+      * right. exists y, tb. subst. auto.
+Qed.
+
+Lemma bytes_ltb_diff : forall c x y ta tb, x < y -> bytes_ltb (c ++ x :: ta) (c ++ y :: tb) = true.
+Proof.
+  intros. rewrite bytes_ltb_app_l. simpl. apply N.ltb_lt in H. rewrite H. auto.
+Qed.
+
+Lemma bytes_ltb_prefix : forall a y tb, bytes_ltb a (a ++ y :: tb) = true.
+Proof. induction a; simpl; auto. intros. rewrite N.ltb_irrefl. auto. Qed.
+
+(* ================================================================== little endian *)
+
+Lemma le_enc_length : forall w n, length (le_enc w n) = w.
+Proof. induction w; simpl; auto. Qed.
+
+Lemma le_dec_enc : forall w n, n < 256 ^ N.of_nat w -> le_dec (le_enc w n) = n.
+Proof.
+  induction w; intros.
+  - simpl in *. lia.
+  - cbn [le_enc le_dec]. rewrite IHw.
+    + pose proof (N.div_mod n 256). lia.
+    + rewrite Nat2N.inj_succ, N.pow_succ_r' in H.
+      apply N.div_lt_upper_bound; lia.
+Qed.
+
+Lemma le_enc_inj : forall w a b, a < 256 ^ N.of_nat w -> b < 256 ^ N.of_nat w -> le_enc w a = le_enc w b -> a = b.
+Proof. intros. rewrite <- (le_dec_enc w a), <- (le_dec_enc w b); auto. congruence. Qed.
+
+Lemma le_enc_bytes : forall w n x, In x (le_enc w n) -> x < 256.
+Proof.
+  induction w; simpl; intros; try tauto. destruct H.
+  - subst. apply N.mod_lt. lia.
+  - eauto.
+Qed.
+
+Lemma le_dec_bound : forall l, (forall x, In x l -> x < 256) -> le_dec l < 256 ^ N.of_nat (length l).
+Proof.
+  induction l; intros.
+  - simpl. lia.
+  - cbn [length le_dec]. rewrite Nat2N.inj_succ, N.pow_succ_r'.
+    assert (a < 256) by (apply H; simpl; auto).
+    assert (le_dec l < 256 ^ N.of_nat (length l)) by (apply IHl; intros; apply H; simpl; auto).
+    nia.
+Qed.
+
+(* the four bytes of a 16 bit mode *)
+Lemma le_enc4_mode : forall m, m < 65536 -> le_enc 4 m = [m mod 256; m / 256; 0; 0].
+Proof.
+  intros. cbn [le_enc].
+  assert (m / 256 < 256) by (apply N.div_lt_upper_bound; lia).
+  rewrite (N.mod_small (m / 256) 256) by lia.
+  rewrite (N.div_small (m / 256) 256) by lia.
+  reflexivity.
+Qed.
+
+Arguments pack_mode : simpl never.
+Arguments key : simpl never.
+Arguments le_enc : simpl never.
+
+(* ================================================================== induction over trees *)
+
+Section TreeInd.
+  Variable P : tree -> Prop.
+  Hypothesis HFile : forall s d, P (File s d).
+  Hypothesis HDir : forall s es, Forall (fun e => P (snd e)) es -> P (Dir s es).
+  Hypothesis HLink : forall s g, P (Link s g).
+  Hypothesis HDev : forall s r, P (Dev s r).
+  Hypothesis HFifo : forall s, P (Fifo s).
+  Hypothesis HOther : forall s, P (Other s).
+
+  Fixpoint tree_ind2 (t : tree) : P t :=
+    match t with
+    | File s d => HFile s d
+    | Dir s es =>
+        HDir s es ((fix go (l : entries) : Forall (fun e => P (snd e)) l :=
+                      match l with
+                      | [] => Forall_nil _
+                      | e :: tl => Forall_cons e (tree_ind2 (snd e)) (go tl)
+                      end) es)
+    | Link s g => HLink s g
+    | Dev s r => HDev s r
+    | Fifo s => HFifo s
+    | Other s => HOther s
+    end.
+End TreeInd.
+
+(* ================================================================== unfolding of the nested fixpoints *)
+
+Lemma dig_dir : forall H s es, dig H (Dir s es) = H (blob_of H es).
+Proof. reflexivity. Qed.
+
+Lemma hashed_dir_node : forall H s es, hashed H (Dir s es) = hashed_entries H es ++ [blob_of H es].
+Proof. reflexivity. Qed.
+
+Lemma checked_dir : forall p s es, checked p (Dir s es) = checked_entries p es.
+Proof. intros. simpl. induction es; simpl; auto. rewrite IHes. reflexivity. Qed.
+
+Lemma walk_dir : forall St (chk : list N -> stat -> list N -> St -> list N * St) hdir p s es st,
+  walk chk hdir p (Dir s es) st = let '(blob, s') := walk_entries chk hdir p es st in hdir blob s'.
+Proof.
+  intros. cbn [walk].
+  match goal with |- (let '(_, _) := ?f es st in _) = _ => assert (E : forall l s0, f l s0 = walk_entries chk hdir p l s0) end.
+  { induction l; intros; simpl; auto. destruct (walk chk hdir (pjoin p (fst a)) (snd a) s0). rewrite IHl. reflexivity. }
+  rewrite E. reflexivity.
+Qed.
+
+Lemma tree_all_dir : forall P p n s es,
+  tree_all P p n (Dir s es) <-> (P p n (Dir s es) /\ entries_all P p es).
+Proof.
+  intros. cbn [tree_all].
+  match goal with |- (_ /\ ?f es) <-> _ => assert (E : forall l, f l <-> entries_all P p l) end.
+  { induction l; simpl; tauto. }
+  rewrite E. tauto.
+Qed.
+
+Lemma tree_all_node : forall P p n t, tree_all P p n t -> P p n t.
+Proof. intros. destruct t; simpl in H; tauto. Qed.
+
+Lemma entries_all_Forall : forall P p l,
+  entries_all P p l <-> Forall (fun e => tree_all P (pjoin p (fst e)) (fst e) (snd e)) l.
+Proof.
+  induction l; simpl; split; intros; auto.
+  - destruct H. constructor; auto. apply IHl; auto.
+  - inversion H; subst. split; auto. apply IHl; auto.
+Qed.
+
+Lemma norm_dir : forall ign s es, norm ign (Dir s es) = Dir s (norm_entries ign es).
+Proof. reflexivity. Qed.
+
+Lemma erase_dir : forall s es, erase (Dir s es) = Dir (only_mode s) (erase_entries es).
+Proof. reflexivity. Qed.
+
+(* ================================================================== the walk without index is [dig] *)
+
+Lemma walk_null_dig : forall H t p s, walk (null_chk H) (null_hdir H) p t s = (dig H t, s).
+Proof.
+  intros H t. induction t using tree_ind2; intros; try reflexivity.
+  rewrite walk_dir, dig_dir.
+  assert (E : forall p s0, walk_entries (null_chk H) (null_hdir H) p es s0 = (blob_of H es, s0)).
+  { clear p s0. induction H0; intros; simpl; auto.
+    rewrite H0. rewrite IHForall. reflexivity. }
+  rewrite E. reflexivity.
+Qed.
+
+Lemma walk_entries_null : forall H l p s,
+  walk_entries (null_chk H) (null_hdir H) p l s = (blob_of H l, s).
+Proof.
+  induction l; intros; simpl; auto.
+  rewrite walk_null_dig, IHl. reflexivity.
+Qed.
+
+Lemma hash_dir_blob : forall H ign es, hash_dir H ign es = H (blob_of H (norm_entries ign es)).
+Proof.
+  intros. unfold hash_dir, walk_root. rewrite walk_entries_null. reflexivity.
+Qed.
+
+(* ================================================================== the hash only sees what [erase] keeps *)
+
+Lemma is_dir_erase : forall t, is_dir (erase t) = is_dir t.
+Proof. destruct t; reflexivity. Qed.
+
+Lemma pack_mode_erase : forall t, pack_mode (erase t) = pack_mode t.
+Proof. destruct t; reflexivity. Qed.
+
+Lemma key_erase : forall n t, key (n, erase t) = key (n, t).
+Proof. intros. unfold key. simpl. rewrite is_dir_erase. reflexivity. Qed.
+
+Lemma dig_erase : forall H t, dig H (erase t) = dig H t.
+Proof.
+  intros H t. induction t using tree_ind2; try reflexivity.
+  rewrite erase_dir, !dig_dir. f_equal.
+  induction H0; cbn [blob_of erase_entries map fst snd]; auto.
+  fold (erase_entries l). rewrite pack_mode_erase, H0, key_erase, IHForall. destruct x; reflexivity.
+Qed.
+
+Lemma blob_of_erase : forall H l, blob_of H (erase_entries l) = blob_of H l.
+Proof.
+  induction l; cbn [blob_of erase_entries map fst snd]; auto.
+  fold (erase_entries l). rewrite pack_mode_erase, dig_erase, key_erase, IHl. destruct a; reflexivity.
+Qed.
+
+Lemma hash_dir_canon_proof : forall H ign es1 es2,
+  canon ign es1 = canon ign es2 -> hash_dir H ign es1 = hash_dir H ign es2.
+Proof.
+  intros. rewrite !hash_dir_blob. f_equal.
+  rewrite <- (blob_of_erase H (norm_entries ign es1)), <- (blob_of_erase H (norm_entries ign es2)).
+  unfold canon in H0. rewrite H0. reflexivity.
+Qed.
+
+(* ================================================================== sorting *)
+
+Definition key_le (a b : list N * tree) : Prop := bytes_leb (key a) (key b) = true.
+Definition key_lt (a b : list N * tree) : Prop := bytes_ltb (key a) (key b) = true.
+
+Lemma insert_perm : forall x l, Permutation (insert_entry x l) (x :: l).
+Proof.
+  induction l; simpl; auto.
+  destruct (bytes_leb (key x) (key a)); auto.
+  eapply perm_trans. apply perm_skip. apply IHl. apply perm_swap.
+Qed.
+
+Lemma sort_perm : forall l, Permutation (sort_entries l) l.
+Proof.
+  induction l; simpl; auto.
+  eapply perm_trans. apply insert_perm. auto.
+Qed.
+
+Lemma sort_In : forall x l, In x (sort_entries l) <-> In x l.
+Proof.
+  intros. split; intros.
+  - eapply Permutation_in. apply sort_perm. auto.
+  - eapply Permutation_in. apply Permutation_sym, sort_perm. auto.
+Qed.
+
+Lemma insert_sorted : forall x l, StronglySorted key_le l -> StronglySorted key_le (insert_entry x l).
+Proof.
+  induction l; intros; simpl.
+  - constructor; auto.
+  - inversion H; subst.
+    destruct (bytes_leb (key x) (key a)) eqn:E.
+    + constructor; auto. constructor; auto.
+      eapply Forall_impl; [|apply H3]. intros. unfold key_le in *. eapply bytes_leb_trans; eauto.
+    + constructor; auto.
+      assert (Hax : key_le a x).
+      { unfold key_le. destruct (bytes_leb_total (key a) (key x)); auto. congruence. }
+      apply Forall_forall. intros y Hy.
+      eapply Permutation_in in Hy; [|apply insert_perm].
+      destruct Hy; subst; auto.
+      rewrite Forall_forall in H3. auto.
+Qed.
+
+Lemma sort_sorted : forall l, StronglySorted key_le (sort_entries l).
+Proof.
+  induction l; simpl.
+  - constructor.
+  - apply insert_sorted. auto.
+Qed.
+
+Lemma sorted_strict : forall l, StronglySorted key_le l -> NoDup (map key l) -> StronglySorted key_lt l.
+Proof.
+  induction 1; intros; simpl in *.
+  - constructor.
+  - inversion H1; subst. constructor; auto.
+    apply Forall_forall. intros y Hy. rewrite Forall_forall in H0.
+    unfold key_lt. apply bytes_leb_neq_ltb. apply H0; auto.
+    intro E. apply H4. rewrite E. apply in_map. auto.
+Qed.
+
+(* ================================================================== injectivity up to collisions *)
+
+Lemma app_eq_len : forall (A : Type) (a b x y : list A), length a = length b -> a ++ x = b ++ y -> a = b /\ x = y.
+Proof.
+  induction a; destruct b; simpl; intros; try discriminate; auto.
+  inversion H0; subst. destruct (IHa b x y) as [E1 E2]; auto. subst. auto.
+Qed.
+
+(* the start of the next entry in a directory blob: a packed 16 bit mode with non-zero type bits *)
+Definition modehead (R : list N) : Prop :=
+  R = [] \/ exists b0 b1 r, R = b0 :: b1 :: 0 :: 0 :: r /\ b1 <> 0.
+
+Lemma key_split_nil : forall k R1 R2, ~ In 0 k -> k <> [] -> modehead R1 -> modehead R2 -> R1 = k ++ R2 -> False.
+Proof.
+  intros k R1 R2 Hk Hne H1 H2 E.
+  destruct k as [|c k]; [congruence|]. clear Hne.
+  destruct H1 as [H1|(b0 & b1 & r & H1 & Hb1)]; subst R1; [discriminate|].
+  simpl in E. inversion E; subst. clear E.
+  destruct k as [|d k].
+  - simpl in H1. destruct H2 as [H2|(c0 & c1 & r' & H2 & Hc1)]; subst R2; [discriminate|].
+    inversion H1; subst. congruence.
+  - simpl in H1. inversion H1; subst. clear H1.
+    destruct k as [|e k].
+    + simpl in H3. destruct H2 as [H2|(c0 & c1 & r' & H2 & Hc1)]; subst R2; [discriminate|].
+      inversion H3; subst. congruence.
+    + simpl in H3. inversion H3; subst. apply Hk. simpl. auto.
+Qed.
+
+Lemma key_split : forall k1 k2 R1 R2, ~ In 0 k1 -> ~ In 0 k2 -> modehead R1 -> modehead R2 ->
+  k1 ++ R1 = k2 ++ R2 -> k1 = k2 /\ R1 = R2.
+Proof.
+  induction k1; destruct k2; intros R1 R2 Hk1 Hk2 H1 H2 E.
+  - auto.
+  - exfalso. simpl in E. eapply (key_split_nil (n :: k2) R1 R2); eauto. discriminate.
+  - exfalso. simpl in E. eapply (key_split_nil (a :: k1) R2 R1); eauto. discriminate.
+  - simpl in E. inversion E; subst.
+    destruct (IHk1 k2 R1 R2) as [E1 E2]; auto.
+    + intro. apply Hk1. simpl. auto.
+    + intro. apply Hk2. simpl. auto.
+    + subst. auto.
+Qed.
+
+Definition ctor (t : tree) : nat :=
+  match t with File _ _ => 0 | Dir _ _ => 1 | Link _ _ => 2 | Dev _ _ => 3 | Fifo _ => 4 | Other _ => 5 end%nat.
+
+Lemma kind_ok_ctor : forall t1 t2 k, kind_ok t1 k -> kind_ok t2 k -> ctor t1 = ctor t2.
+Proof.
+  destruct t1, t2; simpl; intros; try reflexivity; exfalso.
+  all: try (intuition (try congruence; try lia); fail).
+Qed.
+
+Lemma wf_same_ctor : forall t1 t2 p1 n1 p2 n2, node_wf p1 n1 t1 -> node_wf p2 n2 t2 ->
+  st_mode (node_stat t1) = st_mode (node_stat t2) -> ctor t1 = ctor t2.
+Proof.
+  intros t1 t2 p1 n1 p2 n2 (_ & _ & K1 & _) (_ & _ & K2 & _) Em. rewrite Em in K1. eapply kind_ok_ctor; eauto.
+Qed.
+
+Section Inj.
+  Variable H : list N -> list N.
+  Hypothesis Hlen : forall x, length (H x) = 20%nat.
+
+  Lemma dig_length : forall t,
+    length (dig H t) = match ctor t with 0 | 1 | 2 => 20 | 3 => 4 | _ => 0 end%nat.
+  Proof.
+    destruct t; simpl; auto; try apply le_enc_length.
+  Qed.
+
+  Lemma pack_mode_length : forall t, length (pack_mode t) = 4%nat.
+  Proof. intros. apply le_enc_length. Qed.
+
+  Lemma pack_mode_shape : forall p n t, node_wf p n t ->
+    exists b0 b1, pack_mode t = [b0; b1; 0; 0] /\ b1 <> 0.
+  Proof.
+    intros p n t (Hn & Hm & Hk & _). unfold pack_mode.
+    rewrite le_enc4_mode by auto.
+    exists (st_mode (node_stat t) mod 256), (st_mode (node_stat t) / 256). split; auto.
+    assert (st_mode (node_stat t) / 4096 <> 0).
+    { destruct t; simpl in *; intuition lia. }
+    intro E. apply H0.
+    assert (st_mode (node_stat t) < 256).
+    { pose proof (N.div_mod (st_mode (node_stat t)) 256). pose proof (N.mod_lt (st_mode (node_stat t)) 256). lia. }
+    apply N.div_small. lia.
+  Qed.
+
+  Lemma blob_modehead : forall p l, entries_all node_wf p l -> modehead (blob_of H l).
+  Proof.
+    destruct l; intros.
+    - left. reflexivity.
+    - right. simpl in H0. destruct H0 as [H0 _]. apply tree_all_node in H0.
+      destruct (pack_mode_shape _ _ _ H0) as (b0 & b1 & E & Hb).
+      cbn [blob_of]. rewrite E. simpl. eauto.
+  Qed.
+
+  Lemma key_no_nul : forall n t, ~ In 0 n -> ~ In 0 (key (n, t)).
+  Proof.
+    intros. unfold key. simpl. destruct (is_dir t); auto.
+    intro. apply in_app_or in H1. destruct H1; auto. simpl in H1. unfold SLASH in H1. intuition lia.
+  Qed.
+
+  Lemma key_inj : forall n1 t1 n2 t2, ctor t1 = ctor t2 -> key (n1, t1) = key (n2, t2) -> n1 = n2.
+  Proof.
+    intros. unfold key in H1. simpl in H1.
+    destruct t1, t2; simpl in *; try discriminate; auto.
+    apply app_inv_tail in H1. auto.
+  Qed.
+
+  Definition inj_tree (t1 : tree) : Prop :=
+    forall t2 p1 n1 p2 n2,
+      tree_all node_wf p1 n1 t1 -> tree_all node_wf p2 n2 t2 ->
+      st_mode (node_stat t1) = st_mode (node_stat t2) ->
+      dig H t1 = dig H t2 ->
+      erase t1 = erase t2 \/ collision H (hashed H t1) (hashed H t2).
+
+  Lemma collision_app : forall a1 b1 a2 b2,
+    collision H a1 a2 \/ collision H b1 b2 -> collision H (a1 ++ b1) (a2 ++ b2).
+  Proof.
+    intros. destruct H0 as [(x & y & ? & ? & ? & ?)|(x & y & ? & ? & ? & ?)]; exists x, y;
+      repeat split; auto; apply in_or_app; auto.
+  Qed.
+
+  Lemma inj_entries : forall l1, Forall (fun e => inj_tree (snd e)) l1 ->
+    forall l2 p1 p2, entries_all node_wf p1 l1 -> entries_all node_wf p2 l2 ->
+      blob_of H l1 = blob_of H l2 ->
+      erase_entries l1 = erase_entries l2 \/ collision H (hashed_entries H l1) (hashed_entries H l2).
+  Proof.
+    induction 1 as [|[n1 c1] r1 Hc1 Hr1 IH]; intros l2 p1 p2 W1 W2 E.
+    - destruct l2 as [|[n2 c2] r2]; auto.
+      exfalso. cbn [blob_of] in E.
+      pose proof (pack_mode_length (snd (n2, c2))). destruct (pack_mode (snd (n2, c2))); simpl in *; discriminate.
+    - destruct l2 as [|[n2 c2] r2].
+      { exfalso. cbn [blob_of] in E.
+        pose proof (pack_mode_length (snd (n1, c1))). destruct (pack_mode (snd (n1, c1))); simpl in *; discriminate. }
+      cbn [entries_all fst snd] in W1, W2. destruct W1 as [W1 W1r], W2 as [W2 W2r].
+      cbn [blob_of fst snd] in E.
+      apply app_eq_len in E; [|rewrite !pack_mode_length; reflexivity].
+      destruct E as [Em E].
+      pose proof (tree_all_node _ _ _ _ W1) as N1. pose proof (tree_all_node _ _ _ _ W2) as N2.
+      assert (Emode : st_mode (node_stat c1) = st_mode (node_stat c2)).
+      { destruct N1 as (_ & M1 & _), N2 as (_ & M2 & _). unfold pack_mode in Em.
+        apply le_enc_inj in Em; auto; simpl; lia. }
+      pose proof (wf_same_ctor _ _ _ _ _ _ N1 N2 Emode) as Ector.
+      apply app_eq_len in E; [|rewrite !dig_length, Ector; reflexivity].
+      destruct E as [Ed E].
+      apply key_split in E.
+      + destruct E as [Ek Er].
+        assert (n1 = n2) by (eapply key_inj; eauto). subst n2.
+        specialize (Hc1 c2 _ _ _ _ W1 W2 Emode Ed). cbn [snd] in Hc1.
+        specialize (IH r2 _ _ W1r W2r Er).
+        cbn [hashed_entries snd]. 
+        destruct Hc1 as [Hc1|Hc1]; [|right; apply collision_app; auto].
+        destruct IH as [IH|IH]; [|right; apply collision_app; auto].
+        left. cbn [erase_entries map fst snd]. fold (erase_entries r1). fold (erase_entries r2). congruence.
+      + apply key_no_nul. apply N1.
+      + apply key_no_nul. apply N2.
+      + eapply blob_modehead; eauto.
+      + eapply blob_modehead; eauto.
+  Qed.
+
+  Lemma inj_all : forall t, inj_tree t.
+  Proof.
+    induction t using tree_ind2; intros t2 p1 n1 p2 n2 W1 W2 Em Ed;
+      pose proof (tree_all_node _ _ _ _ W1) as N1; pose proof (tree_all_node _ _ _ _ W2) as N2;
+      pose proof (wf_same_ctor _ _ _ _ _ _ N1 N2 Em) as Ector;
+      destruct t2; simpl in Ector; try discriminate; clear Ector.
+    - (* File *) simpl in Ed, Em. simpl.
+      destruct (list_eq_dec N.eq_dec d data) as [E|E].
+      + left. subst. unfold only_mode. rewrite Em. reflexivity.
+      + right. exists d, data. simpl. auto.
+    - (* Dir *)
+      rewrite !dig_dir in Ed. rewrite !erase_dir, !hashed_dir_node. simpl in Em.
+      apply tree_all_dir in W1, W2. destruct W1 as [_ W1], W2 as [_ W2].
+      destruct (list_eq_dec N.eq_dec (blob_of H es) (blob_of H entries)) as [E|E].
+      + destruct (inj_entries es H0 entries _ _ W1 W2 E) as [E2|E2].
+        * left. unfold only_mode. rewrite Em, E2. reflexivity.
+        * right. apply collision_app. auto.
+      + right. exists (blob_of H es), (blob_of H entries).
+        repeat split; auto; apply in_or_app; right; simpl; auto.
+    - (* Link *) simpl in Ed, Em. simpl.
+      destruct (list_eq_dec N.eq_dec g target) as [E|E].
+      + left. subst. unfold only_mode. rewrite Em. reflexivity.
+      + right. exists g, target. simpl. auto.
+    - (* Dev *) simpl in Ed, Em. left. simpl. unfold only_mode. rewrite Em.
+      destruct N1 as (_ & _ & _ & R1), N2 as (_ & _ & _ & R2).
+      apply le_enc_inj in Ed; simpl; try lia. subst. reflexivity.
+    - simpl in Em. left. simpl. unfold only_mode. rewrite Em. reflexivity.
+    - simpl in Em. left. simpl. unfold only_mode. rewrite Em. reflexivity.
+  Qed.
+End Inj.
+
+(* ================================================================== predicates survive normalisation *)
+
+Lemma norm_entries_In : forall ign es x, In x (norm_entries ign es) ->
+  exists e, In e es /\ x = (fst e, norm ign (snd e)) /\ keep ign x = true.
+Proof.
+  unfold norm_entries. intros. apply (proj1 (sort_In _ _)) in H. apply filter_In in H. destruct H as [H K].
+  apply in_map_iff in H. destruct H as (e & E & I). exists e. auto.
+Qed.
+
+Section NormAll.
+  Variable P : list N -> list N -> tree -> Prop.
+  Hypothesis Pdir : forall p n s es es', P p n (Dir s es) -> P p n (Dir s es').
+  Variable ign : list (list N).
+
+  Lemma tree_all_norm : forall t p n, tree_all P p n t -> tree_all P p n (norm ign t).
+  Proof.
+    induction t using tree_ind2; intros; auto.
+    rewrite norm_dir. apply tree_all_dir in H0. destruct H0 as [H0 H1]. apply tree_all_dir. split.
+    - eapply Pdir; eauto.
+    - apply entries_all_Forall. apply Forall_forall. intros x Hx.
+      apply norm_entries_In in Hx. destruct Hx as (e & Ie & Ex & _). subst x. simpl.
+      rewrite Forall_forall in H. apply H; auto.
+      apply entries_all_Forall in H1. rewrite Forall_forall in H1. apply H1. auto.
+  Qed.
+
+  Lemma entries_all_norm : forall p es, entries_all P p es -> entries_all P p (norm_entries ign es).
+  Proof.
+    intros. apply entries_all_Forall. apply Forall_forall. intros x Hx.
+    apply norm_entries_In in Hx. destruct Hx as (e & Ie & Ex & _). subst x. simpl.
+    apply tree_all_norm. apply entries_all_Forall in H. rewrite Forall_forall in H. apply H. auto.
+  Qed.
+End NormAll.
+
+Lemma wf_norm : forall ign es, wf es -> entries_all node_wf [] (norm_entries ign es).
+Proof.
+  intros. apply entries_all_norm; auto.
+Qed.
+
+Theorem hash_dir_injective_proof : forall H ign es1 es2,
+  (forall x, length (H x) = 20%nat) ->
+  wf es1 -> wf es2 ->
+  hash_dir H ign es1 = hash_dir H ign es2 ->
+  canon ign es1 = canon ign es2 \/ collision H (hashed_dir H ign es1) (hashed_dir H ign es2).
+Proof.
+  intros H ign es1 es2 Hlen W1 W2 E. rewrite !hash_dir_blob in E.
+  unfold canon, hashed_dir.
+  destruct (list_eq_dec N.eq_dec (blob_of H (norm_entries ign es1)) (blob_of H (norm_entries ign es2))) as [Eb|Eb].
+  - destruct (inj_entries H Hlen (norm_entries ign es1)) with (l2 := norm_entries ign es2) (p1 := @nil N) (p2 := @nil N)
+      as [E2|E2]; auto using wf_norm.
+    + apply Forall_forall. intros. apply inj_all; auto.
+    + right. apply collision_app. auto.
+  - right. exists (blob_of H (norm_entries ign es1)), (blob_of H (norm_entries ign es2)).
+    repeat split; auto; apply in_or_app; right; simpl; auto.
+Qed.
+
+(* ================================================================== the order of the directory listing does not matter *)
+
+Lemma sorted_perm_eq : forall l1 l2 : entries,
+  StronglySorted key_lt l1 -> StronglySorted key_lt l2 -> Permutation l1 l2 -> l1 = l2.
+Proof.
+  induction l1 as [|a r1 IH]; intros l2 S1 S2 Pm.
+  - apply Permutation_nil in Pm. auto.
+  - destruct l2 as [|b r2]. { apply Permutation_sym, Permutation_nil in Pm. discriminate. }
+    inversion S1; subst. inversion S2; subst.
+    assert (a = b).
+    { assert (Ia : In a (b :: r2)) by (eapply Permutation_in; eauto; simpl; auto).
+      assert (Ib : In b (a :: r1)) by (eapply Permutation_in; [apply Permutation_sym; eauto|]; simpl; auto).
+      destruct Ia as [Ia|Ia]; auto. destruct Ib as [Ib|Ib]; auto.
+      rewrite Forall_forall in H2, H4. pose proof (H2 _ Ib) as Lab. pose proof (H4 _ Ia) as Lba.
+      unfold key_lt in Lab, Lba. pose proof (bytes_ltb_trans _ _ _ Lab Lba) as Laa.
+      rewrite bytes_ltb_irrefl in Laa. discriminate. }
+    subst b. f_equal. apply IH; auto. eapply Permutation_cons_inv; eauto.
+Qed.
+
+Lemma key_norm : forall ign e, key (fst e, norm ign (snd e)) = key e.
+Proof. intros ign [n t]. unfold key. simpl. destruct t; reflexivity. Qed.
+
+Lemma keep_norm : forall ign e, keep ign (fst e, norm ign (snd e)) = keep ign e.
+Proof. intros ign [n t]. unfold keep. simpl. destruct t; reflexivity. Qed.
+
+Lemma key_names_NoDup : forall l : entries,
+  NoDup (map fst l) -> (forall e, In e l -> ~ In SLASH (fst e)) -> NoDup (map key l).
+Proof.
+  induction l as [|a l IH]; simpl; intros ND NS. { constructor. }
+  inversion ND; subst. constructor.
+  - intro I. apply in_map_iff in I. destruct I as (b & Eb & Ib).
+    assert (fst a <> fst b) by (intro E; apply H1; rewrite E; apply in_map; auto).
+    unfold key in Eb. destruct (is_dir (snd b)), (is_dir (snd a)).
+    + apply app_inv_tail in Eb. congruence.
+    + apply (NS a); auto. rewrite <- Eb. apply in_or_app. right. simpl. auto.
+    + apply (NS b); auto. rewrite Eb. apply in_or_app. right. simpl. auto.
+    + congruence.
+  - apply IH; auto.
+Qed.
+
+Lemma norm_entries_perm : forall ign es1 es2, Permutation es1 es2 ->
+  Permutation (norm_entries ign es1) (norm_entries ign es2).
+Proof.
+  intros. unfold norm_entries.
+  eapply perm_trans. apply sort_perm. eapply perm_trans; [|apply Permutation_sym, sort_perm].
+  induction H; simpl.
+  - constructor.
+  - destruct (keep ign (fst x, norm ign (snd x))); auto.
+  - destruct (keep ign (fst x, norm ign (snd x))), (keep ign (fst y, norm ign (snd y))); auto. apply perm_swap.
+  - eapply perm_trans; eauto.
+Qed.
+
+Lemma norm_entries_keys_NoDup : forall ign es,
+  NoDup (map fst es) -> (forall e, In e es -> ~ In SLASH (fst e)) -> NoDup (map key (norm_entries ign es)).
+Proof.
+  intros. apply key_names_NoDup.
+  - unfold norm_entries.
+    eapply Permutation_NoDup. { apply Permutation_map. apply Permutation_sym. apply sort_perm. }
+    clear H0. induction es as [|a es IH]; simpl. { constructor. }
+    inversion H; subst.
+    destruct (keep ign (fst a, norm ign (snd a))); auto. simpl. constructor; auto.
+    intro I. apply H2. apply in_map_iff in I. destruct I as (x & Ex & Ix). apply filter_In in Ix. destruct Ix as [Ix _].
+    apply in_map_iff in Ix. destruct Ix as (y & Ey & Iy). subst x. simpl in Ex. rewrite <- Ex. apply in_map. auto.
+  - intros e Ie. apply norm_entries_In in Ie. destruct Ie as (x & Ix & Ex & _). subst e. simpl. auto.
+Qed.
+
+Lemma norm_entries_sorted : forall ign es,
+  NoDup (map fst es) -> (forall e, In e es -> ~ In SLASH (fst e)) -> StronglySorted key_lt (norm_entries ign es).
+Proof.
+  intros. apply sorted_strict.
+  - apply sort_sorted.
+  - apply norm_entries_keys_NoDup; auto.
+Qed.
+
+(* two listings of the same directory in different orders have the same canonical form *)
+Theorem canon_order_irrelevant_proof : forall ign es1 es2,
+  NoDup (map fst es1) -> (forall e, In e es1 -> ~ In SLASH (fst e)) ->
+  Permutation es1 es2 -> canon ign es1 = canon ign es2.
+Proof.
+  intros. unfold canon. f_equal. apply sorted_perm_eq.
+  - apply norm_entries_sorted; auto.
+  - apply norm_entries_sorted.
+    + eapply Permutation_NoDup; [|eauto]. apply Permutation_map. auto.
+    + intros. apply H0. eapply Permutation_in; [apply Permutation_sym|]; eauto.
+  - apply norm_entries_perm. auto.
+Qed.
+
+(* ================================================================== the walk visits names in increasing order *)
+
+(* what normalisation guarantees for a listing: names ok, every directory strictly sorted by key *)
+Definition node_srt (p n : list N) (t : tree) : Prop :=
+  n <> [] /\ ~ In SLASH n /\ match t with Dir _ es => StronglySorted key_lt es | _ => True end.
+
+Lemma entries_all_In : forall P p l e, entries_all P p l -> In e l -> tree_all P (pjoin p (fst e)) (fst e) (snd e).
+Proof.
+  intros. apply entries_all_Forall in H. rewrite Forall_forall in H. auto.
+Qed.
+
+Lemma norm_srt : forall ign t p n, tree_all node_listing p n t -> tree_all node_srt p n (norm ign t).
+Proof.
+  intros ign t. induction t using tree_ind2; intros p n A;
+    try (simpl in *; unfold node_listing, node_srt in *; tauto).
+  rewrite norm_dir. apply tree_all_dir in A. destruct A as [(Hn & Hs & ND) A]. apply tree_all_dir. split.
+  - split; auto. split; auto.
+    apply norm_entries_sorted; auto.
+    intros e Ie. pose proof (entries_all_In _ _ _ _ A Ie) as T. apply tree_all_node in T. apply T.
+  - apply entries_all_Forall. apply Forall_forall. intros x Hx.
+    apply norm_entries_In in Hx. destruct Hx as (e & Ie & Ex & _). subst x. simpl.
+    rewrite Forall_forall in H. apply H; auto. eapply entries_all_In; eauto.
+Qed.
+
+Lemma norm_entries_srt : forall ign es, listing es ->
+  entries_all node_srt [] (norm_entries ign es) /\ StronglySorted key_lt (norm_entries ign es).
+Proof.
+  intros ign es [ND A]. split.
+  - apply entries_all_Forall. apply Forall_forall. intros x Hx.
+    apply norm_entries_In in Hx. destruct Hx as (e & Ie & Ex & _). subst x. simpl.
+    apply norm_srt. exact (entries_all_In _ _ _ _ A Ie).
+  - apply norm_entries_sorted; auto.
+    intros e Ie. pose proof (entries_all_In _ _ _ _ A Ie) as T. apply tree_all_node in T. apply T.
+Qed.
+
+Lemma In_checked_entries : forall q p l,
+  In q (checked_entries p l) <-> exists e, In e l /\ In q (checked (pjoin p (fst e)) (snd e)).
+Proof.
+  induction l; simpl; split; intros.
+  - tauto.
+  - destruct H as (e & [] & _).
+  - apply in_app_or in H. destruct H.
+    + exists a. auto.
+    + apply IHl in H. destruct H as (e & I & Q). exists e. auto.
+  - destruct H as (e & [E|I] & Q); apply in_or_app.
+    + subst. auto.
+    + right. apply IHl. eauto.
+Qed.
+
+Lemma pjoin_nonempty : forall p n, n <> [] -> pjoin p n <> [].
+Proof. intros. unfold pjoin. destruct p; auto. simpl. discriminate. Qed.
+
+(* every checked name extends the path of the entry; below a directory by '/'... *)
+Lemma checked_form : forall t P q, In q (checked P t) ->
+  exists r, q = P ++ r /\ (is_dir t = false -> r = []) /\ (is_dir t = true -> P <> [] -> exists r', r = SLASH :: r').
+Proof.
+  induction t using tree_ind2; intros P q I; try (simpl in I; tauto).
+  - simpl in I. destruct I as [I|[]]. subst. exists []. rewrite app_nil_r. repeat split; auto. simpl. discriminate.
+  - rewrite checked_dir in I. apply In_checked_entries in I. destruct I as (e & Ie & Q).
+    rewrite Forall_forall in H. destruct (H e Ie _ _ Q) as (r & Er & _ & _).
+    unfold pjoin in Er. destruct P as [|x P].
+    + exists q. simpl. repeat split; auto; try discriminate. congruence.
+    + exists (SLASH :: fst e ++ r). repeat split; try discriminate.
+      * rewrite Er. rewrite <- app_assoc. reflexivity.
+      * eauto.
+  - simpl in I. destruct I as [I|[]]. subst. exists []. rewrite app_nil_r. repeat split; auto. simpl. discriminate.
+Qed.
+
+Definition base (p : list N) : list N := match p with [] => [] | _ => p ++ [SLASH] end.
+
+Lemma pjoin_base : forall p n, pjoin p n = base p ++ n.
+Proof. destruct p; simpl; auto. intros. rewrite <- app_assoc. reflexivity. Qed.
+
+(* a checked name below entry e of directory p is  base p ++ key e ++ r  (r empty unless e is a directory) *)
+Lemma checked_key_form : forall p e q, fst e <> [] -> In q (checked (pjoin p (fst e)) (snd e)) ->
+  exists r, q = base p ++ key e ++ r /\ (is_dir (snd e) = false -> r = []).
+Proof.
+  intros p [n t] q Hn I. simpl in *.
+  destruct (checked_form _ _ _ I) as (r & Er & Hf & Hd).
+  unfold key. simpl. destruct (is_dir t) eqn:D.
+  - destruct (Hd eq_refl (pjoin_nonempty p n Hn)) as (r' & Er'). subst r.
+    exists r'. split; try discriminate. rewrite Er, pjoin_base. rewrite <- !app_assoc. reflexivity.
+  - exists []. rewrite (Hf eq_refl) in Er. rewrite Er, pjoin_base, !app_nil_r. auto.
+Qed.
+
+Lemma SS_app : forall (A : Type) (R : A -> A -> Prop) a b,
+  StronglySorted R a -> StronglySorted R b -> (forall x y, In x a -> In y b -> R x y) -> StronglySorted R (a ++ b).
+Proof.
+  induction a; simpl; intros; auto.
+  inversion H; subst. constructor.
+  - apply IHa; auto.
+  - apply Forall_forall. intros y Iy. apply in_app_or in Iy. destruct Iy.
+    + rewrite Forall_forall in H5. auto.
+    + apply H1; auto.
+Qed.
+
+Lemma key_ext_lt : forall e1 e2 r1 r2,
+  key_lt e1 e2 -> ~ In SLASH (fst e2) -> (is_dir (snd e1) = false -> r1 = []) ->
+  bytes_ltb (key e1 ++ r1) (key e2 ++ r2) = true.
+Proof.
+  intros e1 e2 r1 r2 L NS Hr. unfold key_lt in L.
+  destruct (bytes_ltb_cases _ _ L) as [(c & x & y & ta & tb & E1 & E2 & Lt)|(y & tb & E2)].
+  - rewrite E1, E2, <- !app_assoc. simpl. apply bytes_ltb_diff. auto.
+  - destruct (is_dir (snd e1)) eqn:D1.
+    + exfalso. apply NS. unfold key in E2. rewrite D1 in E2.
+      destruct (is_dir (snd e2)).
+      * destruct (exists_last (l := y :: tb)) as (w & z & Ew); [discriminate|]. rewrite Ew in E2.
+        rewrite <- app_assoc in E2. simpl in E2.
+        replace (fst e1 ++ SLASH :: w ++ [z]) with ((fst e1 ++ SLASH :: w) ++ [z]) in E2
+          by (rewrite <- app_assoc; reflexivity).
+        apply app_inj_tail in E2. destruct E2 as [E2 _]. rewrite E2. apply in_or_app. right. simpl. auto.
+      * rewrite E2. rewrite <- app_assoc. apply in_or_app. right. simpl. auto.
+    + rewrite (Hr eq_refl), app_nil_r, E2, <- app_assoc. simpl. apply bytes_ltb_prefix.
+Qed.
+
+Lemma checked_entries_sorted : forall l p,
+  Forall (fun e => forall P, P <> [] -> forall p' n', tree_all node_srt p' n' (snd e) ->
+                   StronglySorted bytes_lt (checked P (snd e))) l ->
+  entries_all node_srt p l -> StronglySorted key_lt l ->
+  StronglySorted bytes_lt (checked_entries p l).
+Proof.
+  induction l as [|e tl IH]; intros p F A S; simpl.
+  - constructor.
+  - inversion F; subst. inversion S; subst. destruct A as [Ae Atl].
+    pose proof (tree_all_node _ _ _ _ Ae) as (Hn & Hs & _).
+    apply SS_app.
+    + eapply H1; eauto. apply pjoin_nonempty; auto.
+    + apply IH; auto.
+    + intros x y Ix Iy. apply In_checked_entries in Iy. destruct Iy as (e2 & Ie2 & Iy).
+      pose proof (entries_all_In _ _ _ _ Atl Ie2) as A2. apply tree_all_node in A2. destruct A2 as (Hn2 & Hs2 & _).
+      destruct (checked_key_form _ _ _ Hn Ix) as (r1 & Ex & Hr1).
+      destruct (checked_key_form _ _ _ Hn2 Iy) as (r2 & Ey & _).
+      unfold bytes_lt. rewrite Ex, Ey, bytes_ltb_app_l.
+      apply key_ext_lt; auto. rewrite Forall_forall in H4. auto.
+Qed.
+
+(* node_srt does not look at the path *)
+Lemma srt_path_indep : forall t p1 p2 n, tree_all node_srt p1 n t -> tree_all node_srt p2 n t.
+Proof.
+  induction t using tree_ind2; intros p1 p2 n T; try (simpl in *; tauto).
+  apply tree_all_dir in T. destruct T as [T1 T2]. apply tree_all_dir. split; auto.
+  apply entries_all_Forall. apply Forall_forall. intros x Ix.
+  rewrite Forall_forall in H. apply (H x Ix (pjoin p1 (fst x))). exact (entries_all_In _ _ _ _ T2 Ix).
+Qed.
+
+Lemma checked_sorted : forall t P, P <> [] -> forall p n, tree_all node_srt p n t ->
+  StronglySorted bytes_lt (checked P t).
+Proof.
+  induction t using tree_ind2; intros P HP p n A; try (simpl; repeat constructor; fail).
+  rewrite checked_dir. apply tree_all_dir in A. destruct A as [(_ & _ & S) A].
+  eapply checked_entries_sorted; eauto.
+  apply entries_all_Forall. apply Forall_forall. intros e Ie.
+  apply (srt_path_indep _ (pjoin p (fst e))). exact (entries_all_In _ _ _ _ A Ie).
+Qed.
+
+Theorem dfs_order_sorted_proof : forall ign es, listing es ->
+  StronglySorted bytes_lt (checked_entries [] (norm_entries ign es)).
+Proof.
+  intros. destruct (norm_entries_srt ign es H) as [A S].
+  apply checked_entries_sorted; auto.
+  apply Forall_forall. intros e _ P HP p' n' T. eapply checked_sorted; eauto.
+Qed.
+
+(* [checked] really is the sequence of names that the walk hands to the index *)
+
+Lemma walk_calls_entries : forall H l,
+  Forall (fun e => forall p l0, snd (walk (log_chk H) (log_hdir H) p (snd e) l0) = l0 ++ checked p (snd e)) l ->
+  forall p l0, snd (walk_entries (log_chk H) (log_hdir H) p l l0) = l0 ++ checked_entries p l.
+Proof.
+  induction 1 as [|x tl Hx HF IH]; intros p l0; simpl.
+  - rewrite app_nil_r. auto.
+  - specialize (Hx (pjoin p (fst x)) l0).
+    destruct (walk (log_chk H) (log_hdir H) (pjoin p (fst x)) (snd x) l0) as [d s1]. simpl in Hx. subst s1.
+    specialize (IH p (l0 ++ checked (pjoin p (fst x)) (snd x))).
+    destruct (walk_entries (log_chk H) (log_hdir H) p tl (l0 ++ checked (pjoin p (fst x)) (snd x))) as [r s2].
+    simpl in *. rewrite IH, app_assoc. reflexivity.
+Qed.
+
+Lemma walk_calls_checked_tree : forall H t p l,
+  snd (walk (log_chk H) (log_hdir H) p t l) = l ++ checked p t.
+Proof.
+  intros H t. induction t using tree_ind2; intros; try (simpl; rewrite ?app_nil_r; reflexivity).
+  rewrite walk_dir, checked_dir.
+  pose proof (walk_calls_entries H es H0 p l) as E.
+  destruct (walk_entries (log_chk H) (log_hdir H) p es l). simpl in *. auto.
+Qed.
+
+Theorem walk_calls_checked_proof : forall H ign es,
+  check_sequence H ign es = checked_entries [] (norm_entries ign es).
+Proof.
+  intros. unfold check_sequence, walk_root.
+  pose proof (walk_calls_entries H (norm_entries ign es)) as E.
+  specialize (E ltac:(apply Forall_forall; intros; apply walk_calls_checked_tree) [] []).
+  destruct (walk_entries (log_chk H) (log_hdir H) [] (norm_entries ign es) []). simpl in *. auto.
+Qed.
+
+Theorem check_sequence_sorted_proof : forall H ign es, listing es ->
+  StronglySorted bytes_lt (check_sequence H ign es).
+Proof. intros. rewrite walk_calls_checked_proof. apply dfs_order_sorted_proof. auto. Qed.
+
+(* ================================================================== the cache is transparent *)
+
+Section Transp.
+  Variable H : list N -> list N.
+  Variable content_of : list N -> statkey -> list N.
+  Let ROK := rec_ok H content_of.
+
+  Definition cur_ok (r : rec) : Prop := r = rec0 \/ ROK r.
+  Definition out_ok (o : option (N * list rec)) : Prop :=
+    match o with None => True | Some (_, es) => Forall ROK es end.
+  Definition st_inv (s : ist) : Prop :=
+    cur_ok (i_cur s) /\ Forall ROK (map snd (i_rest s)) /\ out_ok (i_out s).
+
+  Lemma advance_inv : forall name rest cur off,
+    cur_ok cur -> Forall ROK (map snd rest) ->
+    cur_ok (fst (fst (advance name cur off rest))) /\ Forall ROK (map snd (snd (advance name cur off rest))).
+  Proof.
+    induction rest as [|[o r] tl IH]; intros cur off Hc Hr; simpl.
+    - auto.
+    - simpl in Hr. inversion Hr; subst.
+      destruct (bytes_ltb (r_name cur) name).
+      + apply IH; auto. right. auto.
+      + simpl. auto.
+  Qed.
+
+  Lemma rec_matches_spec : forall e name st, rec_matches e name st = true ->
+    r_name e = name /\ rkey e = skey st.
+  Proof.
+    unfold rec_matches, rkey, skey. intros.
+    repeat (apply andb_true_iff in H0; destruct H0 as [H0 ?]).
+    apply bytes_eqb_eq in H0.
+    repeat match goal with E : (_ =? _) = true |- _ => apply N.eqb_eq in E end.
+    split; congruence.
+  Qed.
+
+  Lemma check_ok : forall name st blob s,
+    st_inv s -> name <> [] -> blob = content_of name (skey st) ->
+    snd (fst (check_full H name st blob s)) = H blob /\ st_inv (snd (check_full H name st blob s)).
+  Proof.
+    intros name st blob s (Hc & Hr & Ho) Hn Hb. unfold check_full.
+    pose proof (advance_inv name (i_rest s) (i_cur s) (i_posold s) Hc Hr) as [Ac Ar].
+    destruct (advance name (i_cur s) (i_posold s) (i_rest s)) as [[cur off] rest]. simpl in Ac, Ar.
+    assert (D : (if rec_matches cur name st then r_digest cur else H blob) = H blob).
+    { destruct (rec_matches cur name st) eqn:M; auto.
+      apply rec_matches_spec in M. destruct M as [Mn Mk].
+      destruct Ac as [Ac|Ac].
+      - subst cur. simpl in Mn. congruence.
+      - unfold ROK, rec_ok in Ac. rewrite Ac, Mn, Mk, Hb. reflexivity. }
+    simpl. split; auto.
+    split; [|split]; simpl; auto.
+    assert (N : ROK (new_rec name st (if rec_matches cur name st then r_digest cur else H blob))).
+    { rewrite D. unfold ROK, rec_ok, new_rec, rkey. simpl. rewrite Hb. reflexivity. }
+    destruct (i_mism s || negb (rec_matches cur name st)); auto.
+    destruct (i_out s) as [[cut es]|]; simpl in *.
+    - apply Forall_app. auto.
+    - auto.
+  Qed.
+
+  Lemma index_chk_ok : forall name st blob s,
+    st_inv s -> name <> [] -> blob = content_of name (skey st) ->
+    fst (index_chk H name st blob s) = H blob /\ st_inv (snd (index_chk H name st blob s)).
+  Proof.
+    intros. unfold index_chk. pose proof (check_ok name st blob s H0 H1 H2).
+    destruct (check_full H name st blob s) as [[hit d] s']. simpl in *. auto.
+  Qed.
+
+  Definition walk_ok (t : tree) : Prop :=
+    forall p n s, st_inv s -> p <> [] ->
+      tree_all (node_consistent content_of) p n t -> tree_all node_named p n t ->
+      fst (walk (index_chk H) (index_hdir H) p t s) = dig H t /\
+      st_inv (snd (walk (index_chk H) (index_hdir H) p t s)).
+
+  Lemma walk_entries_ok : forall l, Forall (fun e => walk_ok (snd e)) l ->
+    forall p s, st_inv s ->
+      entries_all (node_consistent content_of) p l -> entries_all node_named p l ->
+      fst (walk_entries (index_chk H) (index_hdir H) p l s) = blob_of H l /\
+      st_inv (snd (walk_entries (index_chk H) (index_hdir H) p l s)).
+  Proof.
+    induction 1 as [|e tl He HF IH]; intros p s Hs Hc Hn; simpl.
+    - auto.
+    - destruct Hc as [Hc Hcr]. destruct Hn as [Hn Hnr].
+      assert (pjoin p (fst e) <> []).
+      { apply pjoin_nonempty. apply tree_all_node in Hn. exact Hn. }
+      destruct (He (pjoin p (fst e)) (fst e) s Hs H0 Hc Hn) as [Ed Es].
+      destruct (walk (index_chk H) (index_hdir H) (pjoin p (fst e)) (snd e) s) as [d s1]. simpl in Ed, Es.
+      destruct (IH p s1 Es Hcr Hnr) as [Eb Es2].
+      destruct (walk_entries (index_chk H) (index_hdir H) p tl s1) as [rest s2]. simpl in *.
+      subst. auto.
+  Qed.
+
+  Lemma walk_all_ok : forall t, walk_ok t.
+  Proof.
+    induction t using tree_ind2; intros p n s0 Hs Hp Hc Hn; try (simpl; auto; fail).
+    - simpl in Hc. destruct Hc as [Hc _]. simpl. apply index_chk_ok; auto.
+    - rewrite walk_dir, dig_dir.
+      apply tree_all_dir in Hc, Hn. destruct Hc as [_ Hc], Hn as [_ Hn].
+      destruct (walk_entries_ok es H0 p s0 Hs Hc Hn) as [Eb Es].
+      destruct (walk_entries (index_chk H) (index_hdir H) p es s0) as [blob s1]. simpl in *.
+      subst. auto.
+    - simpl in Hc. destruct Hc as [Hc _]. simpl. apply index_chk_ok; auto.
+  Qed.
+
+  Lemma open_index_inv : forall f, file_ok H content_of f -> st_inv (snd (open_index f)).
+  Proof.
+    assert (Z : st_inv (mkist rec0 [] 0 true None)).
+    { repeat split; simpl; auto. left. auto. }
+    intros [b|] Hf; unfold open_index; auto.
+    destruct (bytes_eqb (firstn 4 b) SIGNATURE); auto.
+    unfold file_ok, file_records in Hf.
+    destruct (parse_body 4 (skipn 4 b)) as [|[o r] tl]; simpl in *.
+    - repeat split; simpl; auto. left. auto.
+    - inversion Hf; subst. repeat split; simpl; auto. right. auto.
+  Qed.
+
+  Lemma cached_run_ok : forall ign f es,
+    file_ok H content_of f -> consistent content_of es -> named es ->
+    forall s0, st_inv s0 ->
+      fst (walk_root (index_chk H) (index_hdir H) (norm_entries ign es) s0) = hash_dir H ign es /\
+      st_inv (snd (walk_root (index_chk H) (index_hdir H) (norm_entries ign es) s0)).
+  Proof.
+    intros ign f es Hf Hc Hn s0 Hs. unfold walk_root. rewrite hash_dir_blob.
+    assert (Hc' : entries_all (node_consistent content_of) [] (norm_entries ign es)).
+    { apply entries_all_norm; auto. }
+    assert (Hn' : entries_all node_named [] (norm_entries ign es)).
+    { apply entries_all_norm; auto. }
+    destruct (walk_entries_ok (norm_entries ign es)) with (p := @nil N) (s := s0) as [Eb Es]; auto.
+    { apply Forall_forall. intros. apply walk_all_ok. }
+    destruct (walk_entries (index_chk H) (index_hdir H) [] (norm_entries ign es) s0) as [blob s1].
+    simpl in *. subst. auto.
+  Qed.
+
+  Theorem cache_transparent_proof : forall ign f es,
+    file_ok H content_of f -> consistent content_of es -> named es ->
+    fst (hash_cached H ign f es) = hash_dir H ign es.
+  Proof.
+    intros ign f es Hf Hc Hn. unfold hash_cached.
+    pose proof (open_index_inv f Hf) as Hs.
+    destruct (open_index f) as [inb s0]. simpl in Hs.
+    destruct (cached_run_ok ign f es Hf Hc Hn s0 Hs) as [E _].
+    destruct (walk_root (index_chk H) (index_hdir H) (norm_entries ign es) s0) as [d s]. simpl in *. auto.
+  Qed.
+End Transp.
